@@ -166,6 +166,13 @@ pub fn build<Data: GarnishData>(parse_root: usize, parse_tree: Vec<ParseNode>, d
         });
     }
 
+    // the handlers index the build node list with the root and with every child link
+    let node_count = parse_tree.len();
+    let in_range = |index: Option<usize>| index.map_or(true, |i| i < node_count);
+    if parse_root >= node_count || parse_tree.iter().any(|node| !in_range(node.get_left()) || !in_range(node.get_right())) {
+        Err(CompilerError::new_message(format!("Parse tree refers to a node outside of its {} nodes", node_count)))?;
+    }
+
     let mut nodes: Vec<Option<BuildNode<Data>>> = Vec::with_capacity(parse_tree.len());
     for _ in 0..parse_tree.len() {
         nodes.push(None);
